@@ -325,6 +325,40 @@ def c17(rng, qk):
     return s.text(), s.grace
 
 
+def c17reg(rng, qk):
+    """registry concurrency: create_or_get_logger / get_logger / logging / removal from several threads with a yield point at
+    every lock acquisition and release (shadow Spinlock build), so other threads run between the critical sections of a call"""
+    s, cap, mx, bounded = _base(rng, qk, grace=0, soft=rng.choice([1, 4]), hard=8, ring=2)
+    for i in range(2):
+        s.sink(f"S{i}")
+    s.logger("L0", ["S0"], lvl=0)
+    nth = rng.randint(2, 3)
+    for t in range(nth):
+        s.start(f"t{t}")
+    names = ["N0", "N1"]
+    created = set()
+    for _ in range(rng.randint(20, 50)):
+        r = rng.random()
+        t = rng.choice(sorted(s.alive))
+        if r < 0.30:
+            n = rng.choice(names)
+            s.op(f"T {t} create {n} sinks={rng.choice(['S0', 'S1', 'S0,S1'])}")
+            created.add(n)
+        elif r < 0.40:
+            s.op(f"T {t} get {rng.choice(names + ['L0'])}")
+        elif r < 0.55:
+            s.log(t, "L0", pad=rng.randint(0, 8))
+        elif r < 0.92:
+            s.op(f"T {rng.choice(sorted(s.alive))} go")
+        else:
+            s.op("B poll")
+    for _ in range(14):
+        for t in sorted(s.alive):
+            s.op(f"T {t} go")
+    s.finish(final=True, loggers=True)
+    return s.text(), s.grace
+
+
 # --------------------------------------------------------------------------- C20
 def c20(rng, qk, many=0):
     s, cap, mx, bounded = _base(rng, qk, grace=0, soft=rng.choice([1, 4]), hard=8, ring=rng.choice([1, 2]))
